@@ -670,7 +670,9 @@ Definition finish_requests (d : db) (v : Z) (q : query) (rw : rw_ctx) (built : l
   transform v q (exclude_nested_providers d rw (merge_candidates d built combos)).
 
 (* AllocationCandidates._get_by_requests (without limit_results).
-   Hazard 1: when some group's candidates are anchor-ambiguous and there are several groups, Python keeps ONE
+   Hazard 1: when the candidates of the unsuffixed group (the only one that can come out of the SET-valued
+   _alloc_candidates_multiple_providers; _alloc_candidates_single_provider returns a list and keeps every
+   anchor copy) are anchor-ambiguous and there are several groups, Python keeps ONE
    arbitrary member of every class of equal requests. Every such choice lies between dropping the whole class
    and keeping all of it (all later steps are monotone), so the answer is determined iff these two coincide;
    otherwise COrderDependent 1. keep_all_anchors = true returns the upper bound unconditionally. *)
@@ -687,7 +689,7 @@ Definition get_by_requests_gen (keep_all_anchors : bool) (d : db) (v : Z) (q : q
       | RKeyError => CKeyError
       | RVal (cands, st) =>
           let upper := finish_requests d v q rw (st_built st) cands in
-          if keep_all_anchors || negb ((2 <=? lenZ cands) && existsb (fun gl => anchor_ambiguous (snd gl)) cands)
+          if keep_all_anchors || negb ((2 <=? lenZ cands) && existsb (fun gl => negb (use_same_provider (fst gl)) && anchor_ambiguous (snd gl)) cands)
           then upper else
           let lower := finish_requests d v q rw (st_built st) (map (fun gl => (fst gl, drop_ambiguous (snd gl))) cands) in
           match upper with
